@@ -268,10 +268,13 @@ namespace BitSerializer::Csv::Detail
 			mValueIndex = it - mHeaders.cbegin();
 		}
 
-		const auto& valueMeta = mRowValuesMeta.at(mValueIndex);
+		auto& valueMeta = mRowValuesMeta.at(mValueIndex);
 		if (valueMeta.HasEscapedChars)
 		{
 			out_value = UnescapeValue(mDecodedBuffer.data() + valueMeta.Offset, mDecodedBuffer.data() + valueMeta.Offset + valueMeta.Size);
+			// The value is unescaped in the same buffer, remember that for the next reading of this value
+			valueMeta.Size = out_value.size();
+			valueMeta.HasEscapedChars = false;
 		}
 		else
 		{
@@ -284,10 +287,13 @@ namespace BitSerializer::Csv::Detail
 	{
 		if (mValueIndex < mRowValuesMeta.size())
 		{
-			const auto& valueMeta = mRowValuesMeta.at(mValueIndex);
+			auto& valueMeta = mRowValuesMeta.at(mValueIndex);
 			if (valueMeta.HasEscapedChars)
 			{
 				out_value = UnescapeValue(mDecodedBuffer.data() + valueMeta.Offset, mDecodedBuffer.data() + valueMeta.Offset + valueMeta.Size);
+				// The value is unescaped in the same buffer, remember that for the next reading of this value
+				valueMeta.Size = out_value.size();
+				valueMeta.HasEscapedChars = false;
 			}
 			else
 			{
